@@ -933,7 +933,7 @@ int main(int argc, char **argv)
                           {"range", rs.range}, {"budget", rs.budget}, {"seed", rs.seed}, {"idx", n - 1},
                           {"query", rs.query}, {"resFrac", (long)std::lround(rs.res * 1e6)}, {"params", rs.params}};
                 std::cout << "RUN " << (n - 1) << std::endl;
-                runIsolated(what, tr, [&] { tr.emit(runOne(reg, cs, rs)); }, 60, 900);
+                runIsolated(what, tr, [&] { tr.emit(runOne(reg, cs, rs)); }, 240, 1800);
             }
         }
         std::cout << "RECORDED " << n << std::endl;
@@ -955,7 +955,7 @@ int main(int argc, char **argv)
             const json &job = jobs[i];
             json what{{"planner", job["planner"]}, {"job", job.value("id", 0)}, {"idx", n - 1}};
             std::cout << "RUN " << (n - 1) << std::endl;
-            runIsolated(what, tr, [&] { runLifecycle(reg, job, tr); }, 40, 900);
+            runIsolated(what, tr, [&] { runLifecycle(reg, job, tr); }, 180, 1800);
         }
         std::cout << "RECORDED " << n << std::endl;
         return 0;
@@ -977,7 +977,7 @@ int main(int argc, char **argv)
             const json &job = jobs[i];
             json what{{"planner", job["planner"]}, {"objective", job["objective"]}, {"job", job.value("id", 0)}, {"idx", n - 1}};
             std::cout << "RUN " << (n - 1) << std::endl;
-            runIsolated(what, tr, [&] { runCost(reg, job, tr); }, 60, 900);
+            runIsolated(what, tr, [&] { runCost(reg, job, tr); }, 240, 1800);
         }
         std::cout << "RECORDED " << n << std::endl;
         return 0;
